@@ -103,6 +103,8 @@ def inst_logs(case, obs):
                 act = ("shutdown",)
             elif a[1] != i:
                 act = ("nop",)
+            elif k == "reject":
+                act = ("nop",)      # a refused call: no effect on the executor
             elif k in ("flush", "wait"):
                 act = (k, a[2])
             else:
@@ -352,6 +354,15 @@ class C11(Property):
                            ["rel", 0, 0], ["rel", 0, 0], ["flush", 0, 0, 1], ["rel", 0, 0], ["add", 0, 0, 2 * n + 3, 1],
                            ["flush", 0, 2, 2], ["relall"], ["tick", 0], ["clock", idle], ["tick", 0], ["tick", 0],
                            ["add", 0, 1, 2 * n + 4, 1]]})
+        # rows whose Exec fails while no result handler is set (logged), refused calls (Insert with a wrong number
+        # of arguments, UpdateStmt with malformed statements), then a handler, a failing row again
+        cs.append({"insts": [{"kind": "sqlx", "maxw": n, "interval": iv, "nclients": 2}], "bad": [3, 7], "gateq": False,
+                   "gates": False, "scribble": True, "drain": True,
+                   "ops": [["add", 0, 0, 1, 1], ["reject", 0, 1, 0, 900001], ["add", 0, 0, 2, 1], ["add", 0, 1, 3, 1],
+                           ["reject", 0, 1, 1, 0], ["flush", 0, 0, 0], ["reject", 0, 1, 2, 0], ["rel", 0, 0], ["sync", 0, 1],
+                           ["reject", 0, 1, 3, 0], ["add", 0, 0, 6, 1], ["add", 0, 0, 7, 1], ["flush", 0, 1, 1], ["rel", 0, 0],
+                           # rows flushed while the second statement (with a suffix) is the current one
+                           ["add", 0, 0, 8, 1], ["add", 0, 1, 9, 1], ["flush", 0, 0, 2], ["rel", 0, 0]]})
         for c in cs:
             c["drain"] = True
         return cs
@@ -449,6 +460,8 @@ class C11(Property):
                     ops.append(["flush", 0, c, rng.choice([0, 1, 2])])
                 elif r < 0.62:
                     ops.append(["sync", 0, c])
+                elif r < 0.66:
+                    ops.append(["reject", 0, c, rng.randrange(4), 900000 + len(ops)])
                 elif r < 0.7:
                     ops.append(["wait", 0, c, 0])
                 elif r < 0.85:
